@@ -212,10 +212,23 @@ def certifyFailB (t : TopoB) (σ : Nat → Node W) : Option Nat :=
 
 /-! ### literal tables tied to the source by Gen/FilterSoft.lean -/
 
-/-- for which addresses `RouterARP._get_arp_cache_network_interface` / `_get_arp_cache_mac_address` send an ARP request -/
+/-- for which addresses the two RouterARP look-ups send an ARP request, in source order: the looked-up address (only under the
+interface-subnet test: unreachable in `_get_arp_cache_network_interface`, whose loop has returned the interface by then), a
+route's next hop, the default route's next hop -/
 def routerArpTargets : List String :=
-  ["ip_address(if-in-an-interface-subnet)", "route.next_hop_ip_address", "default_route.next_hop_ip_address",
-   "default_route.next_hop_ip_address", "default_route.next_hop_ip_address"]
+  ["_get_arp_cache_network_interface:ip_address", "_get_arp_cache_network_interface:route.next_hop_ip_address",
+   "_get_arp_cache_network_interface:self.router.route_table.default_route.next_hop_ip_address",
+   "_get_arp_cache_network_interface:self.router.route_table.default_route.next_hop_ip_address",
+   "_get_arp_cache_mac_address:ip_address", "_get_arp_cache_mac_address:route.next_hop_ip_address",
+   "_get_arp_cache_mac_address:self.router.route_table.default_route.next_hop_ip_address",
+   "_get_arp_cache_mac_address:self.router.route_table.default_route.next_hop_ip_address"]
+
+/-- `process_frame` / `route_frame`: the frame object that was received is what is sent; only its TTL and MACs are written -/
+def forwardWrites : List String :=
+  ["process_frame:frame.decrement_ttl()", "process_frame:frame.ethernet.dst_mac_addr = target_mac",
+   "process_frame:frame.ethernet.src_mac_addr = network_interface.mac_address", "process_frame:send(frame)",
+   "route_frame:frame.decrement_ttl()", "route_frame:frame.ethernet.dst_mac_addr = target_mac",
+   "route_frame:frame.ethernet.src_mac_addr = network_interface.mac_address", "route_frame:send(frame)"]
 
 /-- `RouterICMP._process_icmp_echo_request`: the reply goes to the source of the request -/
 def routerIcmpReplyDst : String := "frame.ip.src_ip_address"
